@@ -322,12 +322,12 @@ theorem bufferSet_copy_fresh {s : State} {nb : Nat} {z : Buf} {t : Traits} (hz :
   rw [if_neg (by simp [ti])]
   simp only [tf, if_true, ti, zu, Nat.zero_mod, Nat.sub_zero, Nat.zero_add, Nat.zero_min]
   rw [iters_zero 0 t.size sz0]
-  simp only [finiLoop, setGapLoop]
+  simp only [setGapLoop]
   rw [bl, iters_mul k t.size sz0]
   obtain ⟨s', d', hd, fr, n', o', l', hb', _, tk, _⟩ :=
     setInitLoop_nofail k s nb 0 (k * t.size) 0 0 bytes t.size true 0 z ho hz h4 (by omega) small (Nat.le_refl _)
   refine ⟨s', d', ?_, fr, n', o', ?_, ?_, tk⟩
-  · rw [hd]; simp
+  · rw [hd]; simp [savedToks]
   · rw [l']
   · rw [hb']; simp [zt]
 
